@@ -61,7 +61,7 @@ LegalPick(e) == LET p == Pick(e) IN
 SpecStep(e) ==
     CASE e.ev = "Register"  -> Register(e.a.a, e.a.rev, e.a.st, e.a.sf, e.a.af, LegalPick(e))
       [] e.ev = "RegisterQuorum" -> RegisterQuorum
-      [] e.ev = "Start"     -> Start(e.a.a, e.a.cf)
+      [] e.ev = "Start"     -> StartC(e.a.a, e.a.cf, IF "cs" \in DOMAIN e.a THEN e.a.cs ELSE "")
       [] e.ev = "AddCheck"  -> AddCheck(e.a.a, TK(e.a.a))
       [] e.ev = "Add"       -> AddCheck(e.a.a, TK(e.a.a))
       [] e.ev = "AddCommit" -> AddCommit(e.a.a, e.a.cf, TK(e.a.a), e.a.name, SeqSet(e.a.S))
